@@ -337,9 +337,26 @@ func (e *engine) deliver(w *Wire, to int) {
 	e.delivered[w.ID][to] = true
 	what := fmt.Sprintf("deliver message #%d (from node %d, key %s: %s) to node %d", w.ID, w.From, w.Key, wireCanon(w), to)
 	e.log("%s", what)
+	// a removal newer than what the node holds alive takes effect however old it is (the tombstone may
+	// then be discarded at once if it is beyond the retention, the entry may not stay)
+	bLive := liveOf(bR, bP)
+	overdue := map[string]int64{}
+	for ent, tts := range tombstonesOf(mr, mp) {
+		if ts, ok := bLive[ent]; ok && ts <= tts {
+			overdue[ent] = tts
+		}
+	}
 	e.c.Deliver(w, to)
 	aR, aP := e.c.State(to)
 	aLive := liveOf(aR, aP)
+	for ent, tts := range overdue {
+		if ts, ok := aLive[ent]; ok && ts <= tts {
+			e.res.Stats["removals_delivered_to_a_node_holding_the_entry_alive"]++
+			e.failf("%s: the message carries the removal of %s at %d, the node held it alive at %d and still does (at %d) after the delivery", what, ent, tts, bLive[ent], ts)
+			return
+		}
+		e.res.Stats["removals_delivered_to_a_node_holding_the_entry_alive"]++
+	}
 	for _, ent := range hazards {
 		if ts, ok := aLive[ent]; ok {
 			e.failf("%s: %s was removed on this node (tombstone at %d) and reappeared (live at %d) through a message produced before the removal", what, ent, bTomb[ent], ts)
@@ -390,7 +407,9 @@ func (e *engine) pushPull(from, to int) {
 			e.res.ResurrectionHazards++
 		}
 	}
+	e.c.JoinExchange = rapid.Bool().Draw(e.rt, "exchangeFlaggedJoin")
 	e.c.PushPull(from, to)
+	e.c.JoinExchange = false
 	aR, aP := e.c.State(to)
 	aLive := liveOf(aR, aP)
 	for _, ent := range hazards {
@@ -512,7 +531,7 @@ func RunHistory(rt *rapid.T, b *vx.B, o Opts) *Result {
 		kinds = append(kinds, "replace", "replace", "cleanup", "advance", "deliverOld", "deliverOld", "hazard", "hazard", "hazard", "unregister", "removeOwner", "removePartition", "advanceSmall")
 	}
 	if o.ShortRetention {
-		kinds = append(kinds, "advanceLong", "advanceLong", "deliverOld")
+		kinds = append(kinds, "advanceLong", "advanceLong", "deliverOld", "overdueRemoval", "overdueRemoval")
 	}
 	timeBefore := make([]string, n)
 	for s := 0; s < steps && res.Failure == ""; s++ {
@@ -736,6 +755,46 @@ func RunHistory(rt *rapid.T, b *vx.B, o Opts) *Result {
 				continue
 			}
 			pick := cands[rapid.IntRange(0, len(cands)-1).Draw(rt, "hazardPick")]
+			e.deliver(pick.w, pick.to)
+		case "overdueRemoval":
+			// constructed: a removal reaches a node that still holds the entry alive only after the
+			// retention has passed (the node was cut off for longer than tombstones are kept)
+			type od struct {
+				w   *Wire
+				to  int
+				tts int64
+			}
+			var cands []od
+			for t := 0; t < n; t++ {
+				r, p := c.State(t)
+				live := liveOf(r, p)
+				for _, w := range c.Pool {
+					if w.From == t {
+						continue
+					}
+					mr, mp := w.Ring, w.PRing
+					if mr == nil {
+						mr = ring.NewDesc()
+					}
+					if mp == nil {
+						mp = ring.NewPartitionRingDesc()
+					}
+					for ent, tts := range tombstonesOf(mr, mp) {
+						if ts, ok := live[ent]; ok && ts < tts {
+							cands = append(cands, od{w, t, tts})
+							break
+						}
+					}
+				}
+			}
+			if len(cands) == 0 {
+				continue
+			}
+			pick := cands[rapid.IntRange(0, len(cands)-1).Draw(rt, "overduePick")]
+			if age := time.Since(time.Unix(pick.tts, 0)); age <= retentionShort+time.Second {
+				time.Sleep(retentionShort + 2*time.Second - age)
+			}
+			res.Stats["overdue_removals_delivered"]++
 			e.deliver(pick.w, pick.to)
 		case "lockRace":
 			// constructed: the lock register of a partition changes on one node while its state register
